@@ -1858,6 +1858,13 @@ func RunFrame(frame *py.Frame) (res py.Object, err error) {
 		return nil, py.ExceptionNewf(py.SystemError, "vm: instruction out of range - code most likely finished already")
 	}
 
+	// If the frame was in an except handler when it yielded, carry on
+	// handling that exception (see fast_yield below)
+	if frame.Yielded {
+		vm.exc = frame.Exc
+		frame.Exc = py.ExceptionInfo{}
+	}
+
 	var opcode OpCode
 	var arg int32
 	opcodes := frame.Code.Code
@@ -2012,6 +2019,12 @@ func RunFrame(frame *py.Frame) (res py.Object, err error) {
 	}
 
 fast_yield:
+	// Put aside the exception this frame is handling (if any) so that
+	// it is still the one being handled when the frame is resumed
+	if vm.why == whyYield {
+		frame.Exc = vm.exc
+	}
+
 	// FIXME
 	// if (co->co_flags & CO_GENERATOR) {
 	//     /* The purpose of this block is to put aside the generator's exception
